@@ -24,7 +24,33 @@ def verdict_violations(pid, w, kinds=("cands", "seeds", "sets"), skip_ok=True):
             break
     return out
 
-def _attr_history_run(pid, tier, seed, kinds, count_q, count_t, pred, rule, cfg_gen=None, max_len=(6, 9), nmax=(6, 7), final_ops=()):
+def pipe_violations(w):
+    """judge the recorded candidate-pipeline runs against the model (contracts, reduction hypothesis, call log, result)"""
+    out = []
+    corr = []
+    for idx, node, kind, got, want in w.get("pipe_results", []):
+        if kind == "call":
+            res, limit = want
+            full = sorted(parse_states(got))
+            exp_len = len(full) if limit is None else min(limit, len(full))
+            if len(res) != len(set(res)) or not set(res) <= set(full) or len(res) != exp_len:
+                out.append({"sig": "solver-call-contract", "what": f"step {idx} node {node}: a reduced-STG call returned {res} (limit {limit}); the reduced fixed points are {full}"}); break
+        elif kind == "redok" and got != "1":
+            out.append({"sig": "nfvs-reduction-fails", "what": f"step {idx} node {node}: for some assignment of the NFVS the reduced fixed points miss an attractor of the node (the reduction hypothesis of CandidatesFacts fails on this instance)"}); break
+        elif kind == "heurret":
+            m = dict((int(a), int(b)) for a, b in (kv.split(":") for kv in got.split(","))) if got != "-" else {}
+            if m != want:
+                corr.append(f"step {idx} node {node}: heuristic retained set {want} vs model {m}")
+        elif kind == "pipeline":
+            res, log = got.split(" log=")
+            want_res, want_log = want
+            if log != want_log:
+                corr.append(f"step {idx} node {node}: sequence of solver calls differs: code {want_log} / model {log}")
+            elif want_res is not None and res != want_res:
+                corr.append(f"step {idx} node {node}: pipeline result differs: code {want_res} / model {res}")
+    return out, corr
+
+def _attr_history_run(pid, tier, seed, kinds, count_q, count_t, pred, rule, cfg_gen=None, max_len=(6, 9), nmax=(6, 7), final_ops=(), pipe=False):
     rng = random.Random(seed)
     count = _sizes(tier, count_q, count_t)
     cases = []
@@ -33,7 +59,7 @@ def _attr_history_run(pid, tier, seed, kinds, count_q, count_t, pred, rule, cfg_
         n = len(rules.splitlines())
         cfg = cfg_gen(rng) if cfg_gen else {}
         h = H.gen_history(rng, n, max_len=_sizes(tier, *max_len), kinds=kinds)
-        cases.append({"rules": rules, "config": cfg, "history": h, "attr": True})
+        cases.append({"rules": rules, "config": cfg, "history": h, "attr": True, "pipe": pipe})
     corpus = os.path.join(VERIF, "corpus", pid + ".jsonl")
     pre = []
     if os.path.exists(corpus):
@@ -55,8 +81,15 @@ def _attr_history_run(pid, tier, seed, kinds, count_q, count_t, pred, rule, cfg_
         stats["raised_runtime"] += sum(1 for s in w["steps"] if s["real_result"] == "raised:runtime")
         msgs = pred(w)
         diffs = corr_diffs(w)
+        pv, pcorr = pipe_violations(w) if pipe else ([], [])
+        msgs = msgs + pv
+        stats["pipeline_runs"] = stats.get("pipeline_runs", 0) + sum(1 for x in w.get("pipe_results", []) if x[2] == "pipeline")
+        stats["solver_calls_checked"] = stats.get("solver_calls_checked", 0) + sum(1 for x in w.get("pipe_results", []) if x[2] == "call")
         for msg in msgs:
             viol.append({"property": pid, "signature": f"{pid}:" + msg["sig"], "what": msg["what"], "case": w["case"], "failing_input": True, "step": msg.get("step")})
+        if pcorr and not msgs:
+            viol.append({"property": pid, "signature": f"{pid}:correspondence:candidate-pipeline", "what": pcorr[0], "case": w["case"], "failing_input": False,
+                         "theorem_or_correspondence": "Candidates.compute_candidates (replayed on the recorded solver tape) vs compute_attractor_candidates"})
         if diffs and not msgs:
             viol.append({"property": pid, "signature": f"{pid}:correspondence:" + diffs[0]["field"], "what": "model and code differ (cache flags / structure); no property-level failure exhibited on this case",
                          "case": w["case"], "diffs": diffs, "theorem_or_correspondence": "Diagram.step (q_cands/q_seeds/q_sets, expand_one, skip ops) vs biobalm.SuccessionDiagram", "failing_input": False})
@@ -132,7 +165,7 @@ def run_C08(tier, seed):
     return _attr_history_run("C08", tier, seed, kinds, 400, 8000,
         lambda w: verdict_violations("C08", w, kinds=("cands", "seeds")),
         "random short histories (partial expansion, skip nodes) followed by candidate queries on arbitrary nodes with all 4 combinations of greedy-ASP / simulation minification and every numeric configuration field drawn from {0,1,2,3,5,default}; a RuntimeError is an accepted outcome; every returned (cached) candidate list must consist of full states of the node space covering every attractor of the node outside its successors (Checks.check_cover against brute-force attractors); non-trivial = at least one list was checked",
-        cfg_gen=cfg_gen_c08, max_len=(5, 8))
+        cfg_gen=cfg_gen_c08, max_len=(5, 8), pipe=True)
 
 def cfg_gen_c12(rng):
     r = rng.random()
@@ -194,3 +227,34 @@ def run_C05(tier, seed):
     return _attr_history_run("C05", tier, seed, kinds, 300, 5000, pred,
         "random early-stopped histories, then skip_remaining (or minimal-space expansion with skip_ignored / skip_to_minimal), then seeds on EVERY node; seeds of skip nodes must be sound and duplicate-free, of ordinary nodes exact; every brute-force attractor must be reported by some node; without motif-avoidant attractors exactly once; non-trivial = at least one cached item checked",
         final_ops=(("skiprem",), ("seeds_every",)), nmax=(6, 8))
+
+# ---------------------------------------------------------------- candidate pipeline replay (C08)
+def pipe_checks(rec, nm):
+    """model commands for one recorded compute_attractor_candidates call; returns list of (kind, cmd, expectation)"""
+    if rec["nfvs"] is None:
+        return []            # returned before the heuristic retained set (fixed-point node / empty NFVS shortcut)
+    idx = {v: i for i, v in enumerate(nm)}
+    S = sp2s(rec["space"], nm)
+    av = [sp2s(a, nm) for a in rec["avoid"]]
+    avs = ";".join(av) or "-"
+    nf = ",".join(str(idx[v]) for v in rec["nfvs"]) or "-"
+    full = lambda st: sp2s({**st, **rec["space"]}, nm)
+    out = []
+    rinit = ",".join(f"{idx[v]}:{int(b)}" for v, b in rec["rinit"]) or "-"
+    out.append(("heurret", f"heurret {S} {avs} {nf}", dict((idx[v], int(b)) for v, b in rec["rinit"])))
+    if len(rec["nfvs"]) <= 6:
+        out.append(("redok", f"redok {S} {avs} {nf}", "1"))
+    for c in rec["calls"]:
+        R = sp2s(dict(c["ret"]), nm)
+        cav = ";".join(sp2s(a, nm) for a in c["avoid"]) or "-"
+        out.append(("call", f"redfix {R} {S} {cav}", (sorted(full(x) for x in c["res"]), c["limit"])))
+    cfg = rec["cfg"]
+    tape = "/".join((",".join(full(x) for x in c["res"]) or "~") for c in rec["calls"]) or "-"
+    log = "|".join(((",".join(f"{idx[v]}:{int(b)}" for v, b in c["ret"]) or "-") + "@" + ("-" if c["limit"] is None else str(c["limit"]))) for c in rec["calls"]) or "-"
+    want_res = None
+    if rec["outcome"] == "raised":
+        want_res = "raised"
+    elif not rec["simulation"]:
+        want_res = "ok:" + (",".join(sorted(sp2s(x, nm) for x in rec["outcome"])) or "-")
+    out.append(("pipeline", f"candpipe {S} {avs} {nf} {rinit} {cfg['retained_set_optimization_threshold']} {cfg['attractor_candidates_limit']} {cfg['minimum_simulation_budget']} {int(rec['greedy'])} {tape}", (want_res, log)))
+    return out
